@@ -87,3 +87,31 @@ Definition ex2_flat : flat :=
 Close Scope string_scope.
 Example ex2_frag : frag1 ex2_flat = true /\ frag0 ex2_flat = false.
 Proof. vm_compute. repeat split. Qed.
+
+(** A design of fragment F2 outside F1 (a weighted level):
+    Repeat(CrossBlock([f0, f1], [f0], [AtMostKInARow(1, f0=a)]), [MinimumTrials(4)])
+    f0 = {a (weight 2), b} crossed, f1 = {x, y} free: a round is a permutation of the multiset {a, a, b}
+    (3 of them) with 2^3 choices for f1, the leftover trial has 2*2 choices: 3*8 * 4 = 96 keys; the rejection
+    test (AtMostKInARow per repetition) keeps the round a,b,a only: 8 * 4 = 32. *)
+Open Scope string_scope.
+Definition ex3_flat : flat :=
+{| fl_design := [{| ff_name := "f0"; ff_hidden := false; ff_levels := [{| lv_name := "a"; lv_weight := 2; lv_accepts := [] |}; {| lv_name := "b"; lv_weight := 1; lv_accepts := [] |}]; ff_window := None; ff_complex := false |};
+      {| ff_name := "f1"; ff_hidden := false; ff_levels := [{| lv_name := "x"; lv_weight := 1; lv_accepts := [] |}; {| lv_name := "y"; lv_weight := 1; lv_accepts := [] |}]; ff_window := None; ff_complex := false |}];
+   fl_act := [0; 1]; fl_crossings := [[0]]; fl_sustains := [1]; fl_weights := [1]; fl_sizes := [3];
+   fl_preambles := [0]; fl_alignment := EqualPreamble; fl_alignment_preamble := 0; fl_min_trials := 4; fl_trials := 4;
+   fl_rcc := true; fl_exclude := []; fl_excluded_derived := [];
+   fl_constraints := [(FCross);
+      (FConsistency);
+      (FAtMost 1 0 0 (Some {| g_trials := 3; g_preamble := 0; g_sustain := [(0, 1)] |}));
+      (FMinimumTrials (4)%Z)];
+   fl_errors_fail := false |}.
+Close Scope string_scope.
+
+Example ex3_frag : frag2 ex3_flat = true /\ frag1 ex3_flat = false /\ enumerates_b ex3_flat = true.
+Proof. vm_compute. repeat split. Qed.
+Example ex3_keys : List.length (keys_of ex3_flat) = 96 /\ List.length (accepted_keys ex3_flat) = 32 /\
+                   List.length (all_valid (code_sem ex3_flat)) = 32.
+Proof. vm_compute. repeat split. Qed.
+Example ex3_checks : check_sound ex3_flat = true /\ check_inj ex3_flat = true /\ check_complete ex3_flat = true /\
+                     check_accepted_count ex3_flat = true.
+Proof. vm_compute. repeat split. Qed.
